@@ -39,17 +39,17 @@ Qed.
 
 (** what a trial showing [di] says about the cells *)
 Lemma shown_cell s q c di t f l :
-  onehot fb s q -> Forall (fun g => g < nf fb) c -> In di (crossing_combos fb c) -> t < T fb ->
-  cbit fb s di t = true -> In (f, l) di -> f < nf fb /\ l < nlevels fb f /\ get_cell q f t = Some l.
+  onehot fb s q -> Forall (fun g => isact fb g = true) c -> In di (crossing_combos fb c) -> t < T fb ->
+  cbit fb s di t = true -> In (f, l) di -> isact fb f = true /\ l < nlevels fb f /\ get_cell q f t = Some l.
 Proof.
   intros Ho Hc Hdi Ht Hsh Hin. destruct (combos_spec fb HF1 HT c di Hdi) as [A B].
-  assert (Hf : f < nf fb).
+  assert (Hf : isact fb f = true).
   { apply (proj1 (Forall_forall _ _) Hc). rewrite <- A. now apply (in_map fst di (f, l)). }
   pose proof (proj1 (Forall_forall _ _) B (f, l) Hin) as Hl. cbn [fst snd] in Hl.
   split; [exact Hf|]. split; [exact Hl|].
   unfold cbit in Hsh. rewrite forallb_forall in Hsh. specialize (Hsh (f, l) Hin). cbn [fst snd] in Hsh.
-  destruct Ho as (_ & _ & Hcell & Hbit). rewrite (Hbit t f l Ht Hf Hl) in Hsh.
-  destruct (Hcell t f Ht Hf) as (l0 & _ & El0). rewrite El0 in *. rewrite is_level_some in Hsh.
+  destruct Ho as (_ & _ & Hcell & Hbit & _). rewrite (Hbit t f l Ht Hf Hl) in Hsh.
+  destruct (Hcell t f Ht (f1_act_lt fb HF1 f Hf)) as (l0 & _ & El0). rewrite El0 in *. rewrite is_level_some in Hsh.
   apply Nat.eqb_eq in Hsh. now subst.
 Qed.
 
@@ -73,7 +73,7 @@ Proof.
     specialize (Hex (f, l) Hp). cbn [fst snd] in Hex. unfold Pexclude in Hex.
     apply ntrue_all_false in Hex. unfold F1Kinds.col in Hex. rewrite Nat.sub_0_r in Hex.
     rewrite Forall_map in Hex. pose proof (proj1 (Forall_forall _ _) Hex t ltac:(apply in_seq; lia)) as Hb.
-    cbv beta in Hb. destruct Ho as (_ & _ & _ & Hbit). rewrite (Hbit t f l Ht Hf Hlv), Ecell, is_level_some, Nat.eqb_refl in Hb.
+    cbv beta in Hb. destruct Ho as (_ & _ & _ & Hbit & _). rewrite (Hbit t f l Ht Hf Hlv), Ecell, is_level_some, Nat.eqb_refl in Hb.
     discriminate.
   - (* a derived level no compatible argument tuple satisfies *)
     apply not_true_is_false. intros H. apply existsb_exists in H. destruct H as ([f l] & Hp & Hbad). cbn [fst snd] in Hbad.
@@ -82,7 +82,7 @@ Proof.
     destruct (ff_complex fd); [discriminate|]. apply negb_true_iff in Hbad.
     destruct (shown_cell s q c di t f l Ho Hc Hdi Ht Hsh Hp) as (Hf & Hlv & Ecell).
     pose proof (proj1 (factor_ok_f1 fb HF1 HT s q f fd Ho Efd) (Hfo f fd Efd) w Ew t l Ht Ecell) as Hacc.
-    rewrite (accepts_level_accepts fb HF1 HT s q f fd w t l Ho Efd Ew Ht) in Hacc.
+    rewrite (accepts_level_accepts fb HF1 s q f fd w t l Ho Efd Ew Ht) in Hacc.
     assert (Hin : In (map (lev q t) (win_deps w))
                      (product (map (fun d => match lookup_level di d with Some x => [x] | None => seq 0 (nlevels fb d) end)
                                    (win_deps w)))).
@@ -91,7 +91,7 @@ Proof.
         unfold lev. rewrite Ec. now left.
       - destruct (f1_tables_facts fb HF1 f fd w Efd Ew) as [Hdeps _].
         pose proof (proj1 (Forall_forall _ _) Hdeps d Hd) as Hdn. cbv beta in Hdn.
-        destruct Ho as (_ & _ & Hcell & _). destruct (Hcell t d Ht Hdn) as (x & Hx & Ex).
+        destruct Ho as (_ & _ & Hcell & _). destruct (Hcell t d Ht (f1_act_lt fb HF1 d Hdn)) as (x & Hx & Ex).
         unfold lev. rewrite Ex. apply in_seq. lia. }
     assert (Hex' : existsb (level_accepts fd l)
                      (product (map (fun d => match lookup_level di d with Some x => [x] | None => seq 0 (nlevels fb d) end)
